@@ -34,6 +34,10 @@ pub enum Op {
     Clear { w: u8 },
     EntryAdd { w: u8, t: u16, comp: u8, p: u32 },
     EntryRemove { w: u8, t: u16, comp: u8 },
+    /// several add / remove / observe steps through one `Entry` handle: (kind, component, payload)
+    EntryChain { w: u8, t: u16, steps: Vec<(u8, u8, u32)> },
+    /// `Batch::new` with column lengths that differ (must panic)
+    ExtendRagged { w: u8, shape: u16, lens: Vec<u8>, p: u32 },
     Query { w: u8, q: u16, mode: QMode, salt: Option<u32> },
     ParQuery { w: u8, q: u16, pool: u8, term: PTerm, salt: Option<u32> },
     EntryQuery { w: u8, t: u16, q: u16, salt: Option<u32> },
@@ -60,6 +64,8 @@ impl Op {
             Op::Clear { .. } => "Clear",
             Op::EntryAdd { .. } => "EntryAdd",
             Op::EntryRemove { .. } => "EntryRemove",
+            Op::EntryChain { .. } => "EntryChain",
+            Op::ExtendRagged { .. } => "ExtendRagged",
             Op::Query { .. } => "Query",
             Op::ParQuery { .. } => "ParQuery",
             Op::EntryQuery { .. } => "EntryQuery",
@@ -88,6 +94,8 @@ pub struct Profile {
     pub clear: u32,
     pub entry_add: u32,
     pub entry_remove: u32,
+    pub entry_chain: u32,
+    pub extend_ragged: u32,
     pub query: u32,
     pub par_query: u32,
     /// allow (rare) batches of thousands of rows
@@ -123,6 +131,8 @@ impl Profile {
             clear: 1,
             entry_add: 8,
             entry_remove: 6,
+            entry_chain: 4,
+            extend_ragged: 1,
             query: 6,
             par_query: 2,
             big_batches: false,
@@ -149,6 +159,7 @@ impl Profile {
         let mut p = Self::base();
         match prop {
             "C02" => {
+                p.entry_chain = 8;
                 p.remove = 16;
                 p.remove_stale = 6;
                 p.clear = 3;
@@ -163,6 +174,8 @@ impl Profile {
                 p.round_trip = 1;
             }
             "C04" => {
+                p.extend_ragged = 3;
+                p.entry_chain = 8;
                 p.remove = 12;
                 p.entry_add = 12;
                 p.entry_remove = 10;
@@ -306,6 +319,8 @@ pub fn op_strategy(p: &Profile) -> BoxedStrategy<Op> {
     v.push((p.clear, world_sel(b).prop_map(|w| Op::Clear { w }).boxed()));
     v.push((p.entry_add, (world_sel(b), any::<u16>(), any::<u8>(), any::<u32>()).prop_map(|(w, t, comp, p)| Op::EntryAdd { w, t, comp, p }).boxed()));
     v.push((p.entry_remove, (world_sel(b), any::<u16>(), any::<u8>()).prop_map(|(w, t, comp)| Op::EntryRemove { w, t, comp }).boxed()));
+    v.push((p.entry_chain, (world_sel(b), any::<u16>(), prop::collection::vec((0u8..3, any::<u8>(), any::<u32>()), 2..7)).prop_map(|(w, t, steps)| Op::EntryChain { w, t, steps }).boxed()));
+    v.push((p.extend_ragged, (world_sel(b), shape_sel(few), prop::collection::vec(0u8..4, 2..5), any::<u32>()).prop_map(|(w, shape, lens, p)| Op::ExtendRagged { w, shape, lens, p }).boxed()));
     v.push((p.query, (world_sel(b), any::<u16>(), qmode(), prop::option::weighted(0.7, any::<u32>())).prop_map(|(w, q, mode, salt)| Op::Query { w, q, mode, salt }).boxed()));
     v.push((p.par_query, (world_sel(b), any::<u16>(), 0u8..6, prop::sample::select(PTERMS.to_vec()), prop::option::weighted(0.7, any::<u32>())).prop_map(|(w, q, pool, term, salt)| Op::ParQuery { w, q, pool, term, salt }).boxed()));
     v.push((p.entry_query, (world_sel(b), any::<u16>(), any::<u16>(), prop::option::weighted(0.7, any::<u32>())).prop_map(|(w, t, q, salt)| Op::EntryQuery { w, t, q, salt }).boxed()));
